@@ -316,7 +316,10 @@ def basis_scenario(lp, sid, r, maxbases=40):
             f = newfile()
             lines += ["write_basis h0 b0 %s" % f, "read_basis h0 b1 %s" % f, raw(dict(call="basis_rt", h="h0", b="b0", b2="b1"))]
         if k > .8:
-            lines += ["load_basis h0 b0", "opt_primal h0", "sol h0", "binv h0"]
+            # a basis loaded by the user (no solve since) IS the problem's current basis: writing "the problem's own basis" must write it and keep it
+            f = newfile()
+            lines += ["load_basis h0 b0", "sol h0", "write_basis h0 - %s" % f, "sol h0", "read_basis h0 b3 %s" % f, raw(dict(call="basis_rt", h="h0", b="b0", b2="b3")), "free_basis b3",
+                      "opt_primal h0", "sol h0", "binv h0"]
         if .5 < k < .8:
             # warm start of the exact driver from this (arbitrary valid) basis: the basis handed back must describe the solution
             lines += ["exact h0 %s b0 1" % ("dual" if k < .65 else "primal"), "sol h0", "basis_optimalstatus h0 b0"]
